@@ -28,6 +28,10 @@ def gen_ops(rng, k, depth, cur_parts_hint=3):
                 if F.flat_out_kind(name, k) is not None:
                     cands.append(('flatMap', name))
             for name in F.PART:
+                if name in ('twicep', 'nextlen') and ops and ops[-1]['op'] == 'mapPartitions':
+                    # after another partition function the argument is whatever that function returned (a list stays a
+                    # list - as in Spark's pipelined functions): only the framework's own iterators are pinned down
+                    continue
                 if F.part_out_kind(name, k) is not None:
                     cands.append(('mapPartitions', name))
             if F.is_pair(k):
